@@ -108,7 +108,9 @@ def plan(plan, tier, seed):
     hmap = {}
     # measured: these do not finish within the per-harness limit (data-dependent Vec::with_capacity / symbolic-length slices);
     # they are kept in the thorough tier, where they are expected to be reported as undecided
-    heavy = {"vkc07_instr_vararg", "vkc07_decode_instructions_any_bytes", "vkc07_load_requires_crc"}
+    heavy = {"vkc07_instr_vararg", "vkc07_decode_instructions_any_bytes", "vkc07_load_requires_crc",
+             # measured on three quick runs: none of the truncated-stream harnesses finishes within 300 s
+             "vkc07_instr_truncated_binop_cut5", "vkc07_instr_truncated_binop_cut12", "vkc07_instr_truncated_binop_cut20"}
     for h, suffix, level, bound, what in KANI:
         if tier == "quick" and h in heavy:
             continue
